@@ -22,7 +22,9 @@
      xsub <alloc bytes> <size> <off> <bits>               -> <pointer advance> <size()> <offset()>  of subspan(bits)
      xsubb <alloc bytes> <size> <off> <nbytes>            -> the same of subspan_bytes(nbytes)
      xsub2 <alloc bytes> <size> <off> <bits_at> <size_bits> -> -3 | the same of subspan(bits_at, size_bits)
-     xbits <size> <off> -> size()    xceil <size> <off> -> offset_bytes_ceil()    xalign <off> <n> -> offset after align_offset_to<n> *)
+     xbits <size> <off> -> size()    xceil <size> <off> -> offset_bytes_ceil()    xalign <off> <n> -> offset after align_offset_to<n>
+     xza <buf> <size> <off> -> <rc> <buf'>  setZeros()      xcpa <dst> <dsize> <doff> <src> <ssize> <soff> -> <dst'>  copyTo(dst)
+     xat <size> <off> <bits> -> <size()> <offset()> of at_offset(bits)      xob <size> <off> -> offset_bytes() *)
 open Model
 
 let rec pos_of_int64 (x : int64) : positive =
@@ -107,6 +109,10 @@ let cpp_command (toks : string list) : string =
   | ["xsub2"; nalloc; size; off; at; sb] ->
     let na = int_of_string nalloc in
     (match subspan2 (sp (zeros na) size off) (parse_u64 at) (parse_u64 sb) with Inr _ -> "-3" | Inl s' -> show_span na s')
+  | ["xza"; buf; size; off] -> let b = parse_buf buf in show_set b (setZeros_all (sp b size off))
+  | ["xcpa"; dst; dsize; doff; src; ssize; soff] -> show_ob (copyTo_all (sp (parse_buf src) ssize soff) (sp (parse_buf dst) dsize doff))
+  | ["xat"; size; off; bits] -> let s' = at_offset (sp [] size off) (parse_u64 bits) in show_u64 (sp_bits s') ^ " " ^ show_u64 s'.sp_off
+  | ["xob"; size; off] -> show_u64 (offset_bytes (sp [] size off))
   | ["xbits"; size; off] -> show_u64 (sp_bits (sp [] size off))
   | ["xceil"; size; off] -> show_u64 (offset_bytes_ceil (sp [] size off))
   | ["xalign"; off; n] -> show_u64 (align_offset_to (sp [] "0" off) (parse_u64 n)).sp_off
@@ -132,8 +138,23 @@ let bits_of_string s = List.init (String.length s) (fun i -> s.[i] = '1')
 let string_of_bits l = if l = [] then "-" else String.concat "" (List.map (fun b -> if b then "1" else "0") l)
 let get = function Some x -> x | None -> raise Raised
 
+(* dtype strings like <u2, <i4, <f8: item size = the digits *)
+let item_size (dt : string) : int = int_of_string (String.sub dt 2 (String.length dt - 2))
+let rec nat_of_int n = if n <= 0 then O else S (nat_of_int (n - 1))
+let rec chunks w (l : n list) : n list list =
+  if l = [] then [] else
+  let rec take k l = if k = 0 then ([], l) else match l with [] -> ([], []) | x :: t -> let (a, b) = take (k - 1) t in (x :: a, b) in
+  let (a, b) = take w l in a :: chunks w b
+let big_endian = ref false
+
 let ser_op (s : ser) (op : string) : ser =
   match String.split_on_char ':' op with
+  | ["aa"; dt; h] ->
+    let w = item_size dt in let xs = List.map of_le_bytes (chunks w (parse_buf h)) in
+    get (if !big_endian then be_add_aligned_array_std s (nat_of_int w) xs else add_aligned_array_std s (nat_of_int w) xs)
+  | ["ua"; dt; h] ->
+    let w = item_size dt in let xs = List.map of_le_bytes (chunks w (parse_buf h)) in
+    get (if !big_endian then be_add_unaligned_array_std s (nat_of_int w) xs else add_unaligned_array_std s (nat_of_int w) xs)
   | ["sk"; k] -> skip_bits s (parse_u64 k)
   | ["pad"; k] -> get (pad_to_alignment s (parse_u64 k))
   | ["bit"; v] -> get (add_unaligned_bit s (v <> "0"))
@@ -153,8 +174,6 @@ let ser_op (s : ser) (op : string) : ser =
   | ["i64"; v] -> get (add_aligned_ixx (n_of_int 64) s (z_of_string v))
   | ["abits"; b] -> get (add_aligned_array_of_bits s (bits_of_string (if b = "-" then "" else b)))
   | ["ubits"; b] -> get (add_unaligned_array_of_bits s (bits_of_string (if b = "-" then "" else b)))
-  | ["aa"; _; h] -> get (add_aligned_bytes s (parse_buf h))        (* x.view(Byte): little-endian memory image *)
-  | ["ua"; _; h] -> get (add_unaligned_bytes s (parse_buf h))
   | ["af"; _; _; packed] -> get (add_aligned_bytes s (parse_buf packed))
   | ["uf"; _; _; packed] -> get (add_unaligned_bytes s (parse_buf packed))
   | _ -> failwith ("bad ser op " ^ op)
@@ -190,6 +209,12 @@ let run_pydes (buf : string) (ops : string list) : string =
           match String.split_on_char ':' op with
           | ["sk"; k] -> des_skip_bits d (parse_u64 k)
           | ["pad"; k] -> get (des_pad_to_alignment d (parse_u64 k))
+          | ["aa"; dt; c] | ["ua"; dt; c] ->
+            let w = item_size dt in
+            let f = if !big_endian then (if String.sub op 0 2 = "aa" then be_fetch_aligned_array_std else be_fetch_unaligned_array_std)
+                    else (if String.sub op 0 2 = "aa" then fetch_aligned_array_std else fetch_unaligned_array_std) in
+            let ((elems, bs), d') = get (f d (nat_of_int w) (parse_u64 c)) in
+            emit (show_buf bs ^ (if dt.[1] = 'u' then "/" ^ String.concat "." (List.map show_u64 elems) else "")); d'
           | ["ab"; c] | ["af"; c] -> let (b, d') = get (fetch_aligned_bytes d (parse_u64 c)) in emit (show_buf b); d'
           | ["ub"; c] | ["uf"; c] -> let (b, d') = get (fetch_unaligned_bytes d (parse_u64 c)) in emit (show_buf b); d'
           | ["au"; b] -> let (v, d') = get (fetch_aligned_unsigned d (parse_u64 b)) in emit (show_u64 v); d'
@@ -218,8 +243,27 @@ let run_pydes (buf : string) (ops : string list) : string =
     String.concat "," (List.rev (show_u64 d.d_off :: !out))
   with Raised -> "EXC@" ^ string_of_int (!idx - 1)
 
+(* zeb <buf> <op>;...   ZeroExtendingBuffer: gb:i (get_byte)  sl:l:r (get_unsigned_slice)  fk:o:n (fork_bytes)  bl (bit_length) *)
+let run_zeb (buf : string) (ops : string list) : string =
+  let b = parse_buf buf in
+  let idx = ref 0 in
+  try
+    String.concat "," (List.map (fun op ->
+      incr idx;
+      match String.split_on_char ':' op with
+      | ["gb"; i] -> show_u64 (get_byte b (parse_u64 i))
+      | ["sl"; l; r] -> show_buf (get (get_unsigned_slice b (parse_u64 l) (parse_u64 r)))
+      | ["fk"; o; n] -> show_buf (get (zeb_fork_bytes b (parse_u64 o) (parse_u64 n)))
+      | ["bl"] -> show_u64 (zeb_bit_length b)
+      | _ -> failwith ("bad zeb op " ^ op)) ops)
+  with Raised -> "EXC@" ^ string_of_int (!idx - 1)
+
 let py_command (toks : string list) : string =
+  big_endian := (match toks with ("pyserbe" | "pydesbe") :: _ -> true | _ -> false);
   match toks with
+  | ["pyserbe"; n; ops] -> run_pyser n (String.split_on_char ';' ops)
+  | ["pydesbe"; buf; ops] -> run_pydes buf (String.split_on_char ';' ops)
+  | ["zeb"; buf; ops] -> run_zeb buf (String.split_on_char ';' ops)
   | ["pyser"; n; ops] -> run_pyser n (String.split_on_char ';' ops)
   | ["pyser"; n] -> run_pyser n []
   | ["pydes"; buf; ops] -> run_pydes buf (String.split_on_char ';' ops)
